@@ -139,7 +139,7 @@ class Scheduler(object):
 class ThreadSim(object):
     def __init__(self, sc):
         self.sc = sc
-        self.world = World(sc["seed"])
+        self.world = World(sc["seed"], sc.get("tz"))
         self.violations = []
         self.urls = []          # produced redirect URLs with provenance
         self.held = {}
